@@ -16,6 +16,8 @@ Definition kernel_ok (k : kernel) : Prop := forall c v, k c = Some v -> hex6_b v
 Definition kernel_dom (c : str) : bool :=
   hex6_b c || match assoc c ansi_colors_to_rgb with Some _ => true | None => false end.
 Definition kernel_total (k : kernel) : Prop := forall c, kernel_dom c = true -> exists v, k c = Some v.
+(* get_opposite_color asks its kernel about six hexadecimal digits only *)
+Definition kernel_total_hex (k : kernel) : Prop := forall c, hex6_b c = true -> exists v, k c = Some v.
 
 Lemma opposite_names_table :
   forallb (fun kv : str * str => mem_str (snd kv) ansi_color_names) opposite_ansi_names = true.
@@ -67,11 +69,11 @@ Proof.
     inversion H; subst. split; cbn; [apply hex_ok; eapply Hk; eauto | exact Hb].
 Qed.
 
-Theorem transform_in_domain : forall opp adj, kernel_ok opp -> kernel_ok adj ->
+Theorem transform_in_domain : forall opp adj, kernel_ok opp -> (forall mn mx, kernel_ok (adj mn mx)) ->
   forall t a a', rt_dom a -> transform opp adj t a = Ok a' -> rt_dom a'.
 Proof.
   intros opp adj Ho Ha.
-  fix IH 1. intros t a a' Hd H. destruct t as [| |fg bg|valid identity| |f t'|l|o]; cbn [transform] in H.
+  fix IH 1. intros t a a' Hd H. destruct t as [| |fg bg|valid identity mn mx| |f t'|l|o]; cbn [transform] in H.
   - destruct Hd as [Hc Hb].
     destruct (get_opposite_color opp (a_color a)) as [c|] eqn:E1; [|discriminate].
     cbn [a_bgcolor set_color] in H.
@@ -81,7 +83,7 @@ Proof.
     + exact (opposite_ok opp _ _ Ho Hb E2).
   - inversion H; subst. exact Hd.
   - eapply set_default_ok; eauto.
-  - eapply adjust_ok; eauto.
+  - eapply adjust_ok; [apply Ha | exact Hd | exact H].
   - inversion H; subst. exact Hd.
   - destruct f; [eapply IH; eauto | inversion H; subst; exact Hd].
   - revert a Hd H. induction l as [|t' r IHl]; intros a Hd H.
@@ -105,7 +107,7 @@ Theorem transform_concrete : forall opp adj t a a',
   concrete a -> transform opp adj t a = Ok a' -> concrete a'.
 Proof.
   intros opp adj. fix IH 1. intros t a a' Hd H.
-  destruct t as [| |fg bg|valid identity| |f t'|l|o]; cbn [transform] in H.
+  destruct t as [| |fg bg|valid identity mn mx| |f t'|l|o]; cbn [transform] in H.
   - destruct Hd as (C1 & C2 & C3).
     destruct (get_opposite_color opp (a_color a)) as [c|] eqn:E1; [|discriminate].
     cbn [a_bgcolor set_color] in H.
@@ -143,7 +145,7 @@ Qed.
 
 (* the round trip extends through transformations *)
 Theorem sgr_roundtrip_transformed : forall opp adj rules s d a t a',
-  kernel_ok opp -> kernel_ok adj -> rt_dom d ->
+  kernel_ok opp -> (forall mn mx, kernel_ok (adj mn mx)) -> rt_dom d ->
   style_get rules s d = Ok a -> transform opp adj t a = Ok a' ->
   concrete a' /\ decode_seq (escape_code 24 a') = Ok (canon a').
 Proof.
@@ -177,7 +179,7 @@ Fixpoint well_formed (t : transf) : bool :=
   match t with
   | TSetDefault fg bg =>
       match parse_color fg, parse_color bg with Some _, Some _ => true | _, _ => false end
-  | TAdjust valid _ => valid
+  | TAdjust valid _ _ _ => valid
   | TCond _ t' => well_formed t'
   | TMerged l => (fix all (l : list transf) : bool :=
                     match l with [] => true | t' :: r => well_formed t' && all r end) l
@@ -185,7 +187,7 @@ Fixpoint well_formed (t : transf) : bool :=
   | _ => true
   end.
 
-Lemma opposite_total : forall opp c, kernel_total opp -> color_ok c = true ->
+Lemma opposite_total : forall opp c, kernel_total_hex opp -> color_ok c = true ->
   exists c', get_opposite_color opp c = Ok c'.
 Proof.
   intros opp c Ht Hc. unfold get_opposite_color. destruct c as [s|]; [|eauto].
@@ -195,7 +197,7 @@ Proof.
   - exfalso. assert (X : forallb (fun n => match assoc n opposite_ansi_names with Some _ => true | None => false end) ansi_color_names = true) by (vm_compute; reflexivity).
     apply mem_str_In in E3. pose proof (proj1 (forallb_forall _ _) X _ E3) as Y. cbv beta in Y. rewrite E2 in Y. discriminate.
   - cbn [orb] in Hc. rewrite Hc.
-    destruct (Ht s ltac:(unfold kernel_dom; rewrite Hc; reflexivity)) as [v Hv]. rewrite Hv. eauto.
+    destruct (Ht s Hc) as [v Hv]. rewrite Hv. eauto.
 Qed.
 
 Lemma names_have_rgb :
@@ -223,18 +225,19 @@ Proof.
       destruct (Ht s ltac:(unfold kernel_dom; rewrite Hc; reflexivity)) as [v Hv]. rewrite Hv. eauto.
 Qed.
 
-Theorem transform_total : forall opp adj, kernel_ok opp -> kernel_total opp -> kernel_ok adj -> kernel_total adj ->
+Theorem transform_total : forall opp adj, kernel_ok opp -> kernel_total_hex opp ->
+  (forall mn mx, kernel_ok (adj mn mx)) -> (forall mn mx, kernel_total (adj mn mx)) ->
   forall t a, well_formed t = true -> rt_dom a -> exists a', transform opp adj t a = Ok a'.
 Proof.
   intros opp adj Hk Ht Hka Hta. fix IH 1. intros t a Hw Hd.
-  destruct t as [| |fg bg|valid identity| |f t'|l|o]; cbn [transform]; cbn [well_formed] in Hw.
+  destruct t as [| |fg bg|valid identity mn mx| |f t'|l|o]; cbn [transform]; cbn [well_formed] in Hw.
   - destruct Hd as [Hc Hb]. destruct (opposite_total opp _ Ht Hc) as [c E1]. rewrite E1.
     cbn [a_bgcolor set_color]. destruct (opposite_total opp _ Ht Hb) as [b E2]. rewrite E2. eauto.
   - eauto.
   - unfold set_default_color. destruct (parse_color fg); [|discriminate]. destruct (parse_color bg); [|discriminate].
     destruct (is_empty_or_default (a_bgcolor a)); cbn [a_color set_bgcolor];
       destruct (is_empty_or_default (a_color a)); eauto.
-  - subst valid. apply adjust_total; assumption.
+  - subst valid. apply adjust_total; [apply Hta | assumption].
   - eauto.
   - destruct f; [apply IH; assumption | eauto].
   - revert a Hd. induction l as [|t' r IHl]; intros a Hd; [eauto|].
